@@ -46,6 +46,8 @@ def steps_from(cur, edges):
     """possible next steps from oriented segment cur: [(eid, orient, next)]"""
     out = []
     for (eid, a, oa, b, ob) in edges:
+        if a == b:
+            continue      # self-loop edges are not walked (they only matter for induced edge sets)
         if (a, oa) == cur:
             out.append((eid, "+", (b, ob)))
         if (b, inv(ob)) == cur:
@@ -134,8 +136,8 @@ def gen(streams, tier, i):
     seen_pairs = set()
     for j in range(dr.randint(1, 8)):
         a, b = dr.choice(segs), dr.choice(segs)
-        if a == b:
-            continue
+        if a == b and dr.random() < 0.7:
+            continue          # some self-loop edges (they belong to induced edge sets like any other)
         oa, ob = dr.choice("+-"), dr.choice("+-")
         key = min(((a, oa), (b, ob)), ((b, inv(ob)), (a, inv(oa))))
         if key in seen_pairs and dr.random() < 0.8:
@@ -207,6 +209,9 @@ def gen(streams, tier, i):
                         gl.append(("O", subname, sub_items, []))
                         groups.append({"rt": "O", "name": subname, "expect": subwalk, "style": "sub"})
                         items = pre_items + [subname + sign] + post_items
+                        if i0 == 1 and wr.random() < 0.5 and simple(walk):
+                            # the group starts with the junction *edge*, directly followed by the nested path
+                            items = ["%s%s" % walk[1]] + [subname + sign] + post_items
                         nested_info = sign
             if nested_info is None:
                 if style == "nested":
